@@ -264,7 +264,7 @@ PROPS = {
     },
     "C02": {
         "modules": ["SxVerif.Props.C02"],
-        "components": ["netparse", "gen", "parse", "e2e"],
+        "components": ["netparse", "gen", "parse", "e2e", "e2eapp"],
         "trusted_base": [
             "modelled, not verified: net.ParseCIDR / netip.ParseAddr for colon-free input (go1.23 parseIPv4Fields, dtoi) as Model/Net.lean; IPv6 parsing is not modelled at all (refused up front by the colon test)",
             "cidranger PCTrie as list membership after To4 normalisation",
